@@ -3,12 +3,12 @@ CONSTANTS
   Mode = "dep"
   NNames = 4
   WithSelf = FALSE
-  PlaceIn = {1}
+  PlaceIn = {1, 3}
   SelfPlaces = {}
   KeyOrders = "all"
   G2Scopes <- Chain123
   G2Rev = {FALSE}
   RN = 0
-INIT G1Init
+INIT G1InitDag
 NEXT ExhNext
 INVARIANT Emit
